@@ -15,8 +15,10 @@ import (
 )
 
 // ArgPurity (R2.1) is an inclusion-style may-analysis with two marks on SSA values:
-//   EXT   – the value may point into memory reachable from an argument of the entry point
-//   HOLDS – the value is an internal container (slice, map, struct) whose elements may be EXT
+//
+//	EXT   – the value may point into memory reachable from an argument of the entry point
+//	HOLDS – the value is an internal container (slice, map, struct) whose elements may be EXT
+//
 // Writes through EXT values are violations; writes into HOLDS containers are not.
 // It is run once per entry point (the entry point is the context).
 type argAnalysis struct {
